@@ -246,9 +246,10 @@ next_item:
             break;
         }
 
-        /* Check if there is something in the SSL buffer. */
-        if (conn->tls)
-            tls_read_bytes += tls_pending(intf);
+        /* Check if there is something in the SSL buffer or in the input
+         * buffer of another layer (compression). */
+        if (conn->state == XMPP_STATE_CONNECTED)
+            tls_read_bytes += intf->pending(intf);
 
         if (conn->state != XMPP_STATE_DISCONNECTED && conn->sock > max)
             max = conn->sock;
